@@ -447,6 +447,11 @@ class Job:
         """thorough tier: the same query through the cvc5 binary and /usr/bin/z3"""
         if not text or len(text) > 400000:
             return
+        h = _hash(re.sub(r"![0-9]+", "!", text))
+        seen = self.__dict__.setdefault("_cross_seen", set())
+        if h in seen or len(seen) >= 60:
+            return  # per job: at most 60 structurally distinct obligations go through the two external solvers
+        seen.add(h)
         self.cross["checked"] += 1
         with tempfile.NamedTemporaryFile("w", suffix=".smt2", delete=False) as f:
             f.write("(set-logic QF_NRA)\n" + text + "\n")
@@ -472,6 +477,8 @@ class Job:
     def export(self):
         d = dict(self.__dict__)
         d.pop("rng")
+        d.pop("_cross_seen", None)
+        d.pop("last_leaves", None)
         d["functions"] = sorted(self.functions)
         d["stubs"] = sorted(self.stubs)
         d["assumptions"] = sorted(self.assumptions)
